@@ -234,7 +234,7 @@ pub fn inst(u: &mut Unstructured, margin: i64) -> Result<Inst> {
 
 /// a second instant near/far from `a`: boundary-dense deltas
 pub fn inst_near(u: &mut Unstructured, a: Inst, margin: i64) -> Result<Inst> {
-    let k = u.below(14)?;
+    let k = u.below(16)?;
     let ai = a.i();
     let d: i128 = match k {
         0 => 0,
@@ -253,6 +253,21 @@ pub fn inst_near(u: &mut Unstructured, a: Inst, margin: i64) -> Result<Inst> {
         8 => {
             let unit = tl::unit_ns(u.below(7)? as u8);
             u.below(1000)? as i128 * unit + u.range_i64(-1, 1)? as i128
+        }
+        // a *distance* at a power-of-two threshold of any unit (2^63 ns is 106 751 days and
+        // 23:47:16.854775807: the band up to the next whole day, hour, minute matters as well)
+        14 | 15 => {
+            let p = *u.choose(&[31u32, 32, 52, 53, 62, 63, 64])?;
+            let unit: i128 = *u.choose(&[1i128, 1, 1_000, 1_000_000, 1_000_000_000, 60_000_000_000])?;
+            let base = (1i128 << p) * unit;
+            let disp: i128 = match u.below(5)? {
+                0 => 0,
+                1 => u.range_i64(-2, 2)? as i128,
+                2 => u.range_i64(-1_000, 1_000)? as i128,
+                3 => u.range_i64(-3_600_000_000_000, 3_600_000_000_000)? as i128,
+                _ => u.range_i64(-86_400_000_000_000, 86_400_000_000_000)? as i128,
+            };
+            (base + disp).max(0)
         }
         // straddle day 0 / go to the other side of the era
         9 => ai.abs() + u.below(2 * tl::DAY_NS as u64)? as i128,
